@@ -106,7 +106,12 @@ pub fn f64_exact(v: f64) -> Option<crate::rat::Rat> {
 // property's own clauses (first output, window contents, ...) must hold on that path too.  The driver publishes the two
 // fields of the spec being executed in a thread-local so that the per-family runners need no extra parameters.
 thread_local! { pub static ENTRY: std::cell::RefCell<Option<(String, Vec<String>)>> = std::cell::RefCell::new(None); }
+thread_local! { pub static TAIL: std::cell::Cell<usize> = std::cell::Cell::new(0); }
+/// with `tail=K` in the spec only the last K outputs are reported (the checkers that accept a suffix of the outputs compare and
+/// judge exactly those; used by the 65 536-sample soak runs, whose specification check is otherwise quadratic)
+pub fn tail_of<T>(mut v: Vec<T>) -> Vec<T> { let k = TAIL.with(|t| t.get()); if k > 0 && v.len() > k { v.drain(..v.len() - k); } v }
 pub fn set_entry(s: &Spec) {
+    TAIL.with(|t| t.set(if s.has("tail") { s.usize("tail") } else { 0 }));
     ENTRY.with(|e| *e.borrow_mut() = if s.has("via") && s.has("prex") { Some((s.get("via").to_string(), s.strs("prex"))) } else { None });
 }
 pub fn enter<F: signalo_traits::Reset + Clone>(f: F, stats: &mut Stats, feed: impl Fn(&mut F, &str)) -> F {
